@@ -272,6 +272,24 @@ func genC06(c *Ctx, r *rng.R, i int) {
 		tryErr(c, "convert.Convert(null dyn)", func() (cty.Value, error) { return convert.Convert(cty.NullVal(cty.DynamicPseudoType), tty) })
 		tryErr(c, "convert.Convert(dynamic)", func() (cty.Value, error) { return convert.Convert(cty.DynamicVal, tty) })
 	}
+	// collections of unsettled length (a set with an unknown member, with dynamically typed members) converted to the
+	// other collection kinds over an element type with optional attributes at depth
+	{
+		inner := cty.ObjectWithOptionalAttrs(map[string]cty.Type{"c": cty.String, "d": cty.Number}, []string{"d"})
+		ety := cty.ObjectWithOptionalAttrs(map[string]cty.Type{"a": cty.String, "b": inner}, []string{"b"})
+		srcs := []cty.Value{
+			cty.SetVal([]cty.Value{cty.ObjectVal(map[string]cty.Value{"a": cty.UnknownVal(cty.String)}), cty.ObjectVal(map[string]cty.Value{"a": cty.StringVal("x")})}),
+			cty.SetVal([]cty.Value{cty.DynamicVal, cty.DynamicVal}),
+			cty.SetVal([]cty.Value{cty.ObjectVal(map[string]cty.Value{"a": cty.UnknownVal(cty.String)}), cty.ObjectVal(map[string]cty.Value{"a": cty.StringVal("y")})}).Mark(5),
+			cty.UnknownVal(cty.Set(cty.Object(map[string]cty.Type{"a": cty.String}))),
+			cty.ListVal([]cty.Value{cty.ObjectVal(map[string]cty.Value{"a": cty.UnknownVal(cty.String)})}),
+			cty.TupleVal([]cty.Value{cty.ObjectVal(map[string]cty.Value{"a": cty.StringVal("x")}), cty.DynamicVal}),
+		}
+		src := srcs[r.Intn(len(srcs))]
+		for _, tty := range []cty.Type{cty.List(ety), cty.Set(ety), cty.Map(ety), cty.Tuple([]cty.Type{cty.List(ety)})} {
+			tryErr(c, "convert.Convert(unsettled length, optional element type)", func() (cty.Value, error) { return convert.Convert(src, tty) })
+		}
+	}
 	// codecs
 	if !uv.ContainsMarked() {
 		ty := uv.Type()
